@@ -140,7 +140,9 @@ fn record_layout(rec: &mut Rec, font: &MonoFont, lay: &Layout) -> bool {
         let dr = draw(font, &lay.sty, ts, line, p);
         let s = string_of(line);
         let m0 = style.measure_string(&s, Point::zero(), baseline(lay.base)).next_position;
-        let mp = style.measure_string(&s, p, baseline(lay.base)).next_position;
+        // (measured at the line's own x for left aligned text; an aligned line does not start at x, and near the edge of
+        // the coordinate range a text STARTING at x would not fit, so x = 0 is used there: only mp.y is used then)
+        let mp = style.measure_string(&s, if lay.align == 0 { p } else { Point::new(0, y) }, baseline(lay.base)).next_position;
         lines.push(json!({"text": line, "y": y, "ret": dr.ret, "map": dr.map, "m0": pt_json(m0), "mp": pt_json(mp)}));
     }
     // the same text with Baseline::Top
@@ -166,7 +168,7 @@ fn record_layout(rec: &mut Rec, font: &MonoFont, lay: &Layout) -> bool {
     }
     // the same Text on targets that report a small bounding box (what was written is logged wherever it falls)
     let mut small = vec![];
-    if lay.text.len() <= 12 {
+    if lay.text.len() <= 12 && lay.pos.0.unsigned_abs() < 1_000_000_000 && lay.pos.1.unsigned_abs() < 1_000_000_000 {
         let s = string_of(&lay.text);
         let ch = font.character_size.height as i32;
         for (k, b) in [
@@ -358,7 +360,9 @@ fn main() {
     for cf in &customs {
         pool.push(("custom".into(), cf.clone(), i(&cf["ch"]) as u32));
     }
-    let alphabet: Vec<u32> = s("abcXYZ gj,!\u{e9}\u{2603}\u{7f}");
+    // incl. zero-width / invisible code points and every Unicode "line break" character other than LF (VT, FF, NEL,
+    // LS, PS): for Text they are ordinary characters of one cell each - only LF (and CR LF) ends a line
+    let alphabet: Vec<u32> = s("abcXYZ gj,!\u{e9}\u{2603}\u{7f}\u{200b}\u{feff}\u{2028}\u{2029}\u{85}\u{b}\u{c}\u{2060}\u{ad}\u{301}\u{1F600}");
     for (k, f, ch) in &pool {
         for n in 0..per_font {
             let text: Vec<u32> = if n % 3 != 0 {
@@ -390,6 +394,28 @@ fn main() {
             let chains = vec![rng.usize(0, text.len())];
             run_case(&mut rec, &fonts, &json!({"k": k, "font": f, "text": text, "pos": [pos.0, pos.1],
                 "align": rng.u32r(0, 2), "base": rng.u32r(0, 3), "lh": [lh.0, lh.1], "sty": rng.pick(&stys).to_arr(), "chains": chains}));
+        }
+    }
+    // exotic code points in fixed strings, every alignment / baseline, a few fonts
+    for (k, f, _) in pool.iter().take(4).chain(pool.iter().rev().take(2)) {
+        for (j, text) in [s("a\u{200b}b"), s("\u{feff}Hi"), s("ab\u{2028}cd"), s("x\u{2029}\ny\u{85}z"), s("\u{b}\u{c}|"), s("q\u{200d}\u{2060}\r\nw\u{ad}")].iter().enumerate() {
+            for align in 0..3u32 {
+                let base = (j as u32 + align) % 4;
+                run_case(&mut rec, &fonts, &json!({"k": k, "font": f, "text": text, "pos": [7 - j as i32, j as i32 * 3 - 4],
+                    "align": align, "base": base, "lh": [1, 100], "sty": stys[(j + align as usize) % stys.len()].to_arr(), "chains": [1, 2]}));
+            }
+        }
+    }
+    // positions at the edge of the coordinate range (the whole text still fits): right aligned text ending at
+    // i32::MAX - 1, centred text close to it, left aligned text starting at i32::MIN, rows near both ends
+    for (k, f, _) in pool.iter().take(3) {
+        for (j, (align, x)) in [(2u32, i32::MAX - 1), (1, i32::MAX - 40), (0, i32::MIN), (0, i32::MIN + 3), (2, i32::MAX - 300)].iter().enumerate() {
+            for (y, base) in [(i32::MAX - 200, 0u32), (i32::MIN + 200, 1), (0, 3)] {
+                for text in [s("ab"), s("a"), s("ab\nc")] {
+                    run_case(&mut rec, &fonts, &json!({"k": k, "font": f, "text": text, "pos": [x, y], "align": align, "base": base,
+                        "lh": [1, 100], "sty": stys[j % stys.len()].to_arr(), "chains": []}));
+                }
+            }
         }
     }
     rec.note_n("fonts_in_seeded_part", pool.len() as u64);
